@@ -93,6 +93,8 @@ def option_set(rng, fs, f_range, k):
         fek['filter_kwargs'] = filt
     if boundary or (k % 7 == 0):
         fek['boundary'] = boundary
+    if k % 8 == 3:
+        fek['pad'] = False
     opts = {'center_extrema': center, 'burst_method': method, 'return_samples': return_samples,
             'find_extrema_kwargs': fek if (fek or k % 11 == 0) else None}
     lat = [0.0, 0.25, 0.5, 0.8, 1.0]
